@@ -69,6 +69,15 @@ let () = iter_lines (fun l ->
       (match parse_general_names b (lenN b) zero (n_of_int (int_of_string len)) (z_of_int (-1)) with
        | Ok (names, p) -> Printf.sprintf "ok p=%s n=%d%s" (str_n p) (List.length names) (String.concat "" (List.map (fun g -> " " ^ gn_entry g) names))
        | Err _ -> "fail" | Fault -> "FAULT" | OutOfFuel -> "OUTOFFUEL")
+  | "crlrev" :: glen :: h :: _ ->
+      (* the revoked-certificates loop of psX509ParseCRL: buf = from the first entry to the end of the CRL *)
+      let b = bytes_of_hex h in
+      if int_of_string glen > List.length b then "fail" else       (* the caller's getAsnSequence32 refuses it *)
+      (match crl_revoked b (lenN b) zero (n_of_int (int_of_string glen)) with
+       | Ok (serials, p) ->
+           let l = if serials = [] then [[]] else serials in        (* the list head is allocated before the loop *)
+           Printf.sprintf "ok p=%s n=%d%s" (str_n p) (List.length l) (String.concat "" (List.map (fun x -> " " ^ hex_of_bytes x) l))
+       | Err _ -> "fail" | Fault -> "FAULT" | OutOfFuel -> "OUTOFFUEL")
   | "gn_unfixed" :: len :: h :: _ ->
       let b = bytes_of_hex h in
       (match parse_general_names_unfixed b (lenN b) zero (n_of_int (int_of_string len)) (z_of_int (-1)) with
